@@ -476,11 +476,26 @@ def run_check(prop: str, tier: str, replay: str | None, module) -> int:
         f"broken={lean.broken} ({lean.build_s:.1f}s build)")
 
     ctx = Ctx(prop, tier, seed, lean, log)
-    if replay:
-        payload = json.load(open(replay))
-        module.replay(ctx, payload)
-    else:
-        module.run(ctx)
+    # An exception inside the harness while it digests the implementation's output (a NaN where the oracle converts to a
+    # rational, a shape the comparison code does not expect, an exception class of irispie the stream does not map ...) means
+    # the correspondence between model and code could not be established on that input: it is handled like any other broken
+    # tie (failures recorded so far are used, otherwise the failing-input search runs) instead of ending the check with exit 2.
+    # InternalError (the machinery itself is broken: Lean driver crashed, wrong irispie imported) still propagates.
+    try:
+        if replay:
+            payload = json.load(open(replay))
+            module.replay(ctx, payload)
+        else:
+            module.run(ctx)
+    except InternalError:
+        raise
+    except Exception as e:
+        import traceback
+        tb = traceback.extract_tb(e.__traceback__)
+        where = next((f"{os.path.basename(fr.filename)}:{fr.lineno} in {fr.name}" for fr in reversed(tb) if "/harness/" in fr.filename), "?")
+        log(f"[{prop}] harness raised {type(e).__name__}: {str(e)[:300]} at {where}")
+        log("".join(traceback.format_exception(e))[-1500:])
+        lean.broken.append(f"correspondence: harness raised {type(e).__name__}({str(e)[:200]}) at {where} while checking the implementation's output")
 
     # ---- decision -------------------------------------------------------------------
     known = load_known(prop)
@@ -581,8 +596,9 @@ def run_check(prop: str, tier: str, replay: str | None, module) -> int:
         "assumptions": ctx.assumptions + getattr(module, "ASSUMPTIONS", []),
         "wall_s": round(wall, 2), "violations": len(violations),
     }
-    os.makedirs(os.path.join(VERIF, "evidence"), exist_ok=True)
-    with open(os.path.join(VERIF, "evidence", f"{prop}.json"), "w") as f:
+    evidence_dir = os.environ.get("VERIF_EVIDENCE_DIR") or os.path.join(VERIF, "evidence")   # sweeps write elsewhere
+    os.makedirs(evidence_dir, exist_ok=True)
+    with open(os.path.join(evidence_dir, f"{prop}.json"), "w") as f:
         json.dump(ev, f, indent=1, default=str)
     for v in violations:
         print(v, flush=True)
